@@ -234,9 +234,34 @@ class Recorder:
                                'dur_v': q(c.duration), 'start': q(c.start_time), 'end': q(c.end_time)}
         snap = {'top': self.oid(S), 'order': [self.oid(o) for o in ops], 'order2': [self.oid(o) for o in ops2],
                 'leaves': objs, 'comps': cs}
+        if acq:
+            snap.update(self.acq_filters(S, ops))
         if cold:
             self.cold(S, ops, comps, snap)
         return snap
+
+    def acq_filters(self, S, ops):
+        """get_acquisition_indices by qubit and by (qubit, tag) through a handle on the structure, and the order of
+        the measurement targets in the flattened Stim export."""
+        from qce_circuit.language.declarative_circuit import DeclarativeCircuit
+        from qce_circuit.structure.intrf_acquisition_operation import AcquisitionTag
+        ms = [o for o in ops if isinstance(o, IAcquisitionOperation)]
+        out = {'by_q': [], 'by_tag': [], 'stim_m': {'status': 'none', 'targets': []}}
+        if not ms:
+            return out
+        h = DeclarativeCircuit()
+        h._structure = S
+        for qb in sorted(set(o.qubit_index for o in ms)):
+            out['by_q'].append([qb, [int(x) for x in h.get_acquisition_indices(qb)]])
+        for qb, tg in sorted(set((o.qubit_index, o.acquisition_tag) for o in ms)):
+            out['by_tag'].append([qb, tg, [int(x) for x in h.get_acquisition_indices(AcquisitionTag(qubit_index=qb, tag=tg))]])
+        try:
+            from qce_circuit.addon_stim import to_stim
+            import stimread
+            out['stim_m'] = {'status': 'ok', 'targets': [t for ins in stimread.flat(stimread.parse(str(to_stim(h)))) if ins['name'] in ('M', 'MZ') for t in ins['targets']]}
+        except Exception as e:  # export problems are judged by C08, not here
+            out['stim_m'] = {'status': 'error:' + e.__class__.__name__, 'targets': []}
+        return out
 
     def cold(self, S, ops, comps, snap):
         """Memo-free re-evaluation of every time (private memo per snapshot; the process-wide memo is untouched)."""
